@@ -38,7 +38,9 @@ import (
 
 var (
 	metricNames = []string{"m1", "m2", "n1", "n2"}
-	labelNames  = []string{"a", "b", "c"}
+	// "Z" sorts before "__name__" in byte order: matching-label lists that contain it exercise the code's
+	// assumption that the (sorted) list with "__name__" added stays sorted.
+	labelNames  = []string{"a", "b", "c", "Z"}
 	labelVals   = []string{"", "x", "y", "z"}
 )
 
@@ -91,13 +93,15 @@ func universe() []labels.Labels {
 		for _, a := range labelVals {
 			for _, b := range labelVals {
 				for _, c := range labelVals {
-					kv := []string{"__name__", n}
-					for i, v := range []string{a, b, c} {
-						if v != "" {
-							kv = append(kv, labelNames[i], v)
+					for _, z := range labelVals[:3] {
+						kv := []string{"__name__", n}
+						for i, v := range []string{a, b, c, z} {
+							if v != "" {
+								kv = append(kv, labelNames[i], v)
+							}
 						}
+						out = append(out, labels.FromStrings(kv...))
 					}
-					out = append(out, labels.FromStrings(kv...))
 				}
 			}
 		}
@@ -519,8 +523,8 @@ func genSeries(c *h.Ctx, r *h.Rng) []series {
 	kind := r.Intn(4)
 	c.Count(fmt.Sprintf("series:kind%d", kind))
 	// per-case label shape: which labels are used at all, and how many values each takes
-	used := []bool{r.Chance(85), r.Chance(70), r.Chance(40)}
-	nv := []int{int(r.Range(1, 3)), int(r.Range(1, 3)), int(r.Range(1, 2))}
+	used := []bool{r.Chance(85), r.Chance(70), r.Chance(40), r.Chance(30)}
+	nv := []int{int(r.Range(1, 3)), int(r.Range(1, 3)), int(r.Range(1, 2)), int(r.Range(1, 2))}
 	names := metricNames
 	if r.Chance(25) {
 		names = []string{"m1", "n1"}
@@ -548,7 +552,7 @@ func genSeries(c *h.Ctx, r *h.Rng) []series {
 }
 
 func genLabelList(r *h.Rng, allowName bool) string {
-	pool := []string{"a", "b", "c", "a", "b", "d"}
+	pool := []string{"a", "b", "c", "a", "b", "d", "Z"}
 	if allowName {
 		pool = append(pool, "__name__")
 	}
